@@ -204,8 +204,40 @@ def more_cases(tier, seed):
                 j += 1
 
 
+def nested_retry_cases(tier, seed):
+    """The outer block completes early while an inner map/parallel below one of its branches is still running (one inner branch
+    keeps it running) and has a branch parked on a retry timer: the inner executor's timer re-submits that branch AFTER the outer
+    completion record. The re-submitted attempt (READY: wait_for_condition poll, step retry) must be stopped before its user function."""
+    j = 0
+    for okind in ("par", "map"):
+        for ikind in ("par", "map"):
+            for parked in ("wfc", "step-least", "step-most"):
+                if parked == "wfc":
+                    op = {"k": "wfc", "init": 0, "decisions": [("cont", 1), ("stop",)]}
+                else:
+                    op = {"k": "step", "script": [{"do": "fail", "cls": "ValueError", "msg": "x"}, {"do": "ok", "val": 7}], "retry": {"decisions": [("retry", 1), ("stop",)]},
+                          "sem": "most" if parked == "step-most" else "least"}
+                ibrs = [{"body": [op, {"k": "step", "val": "tail"}]}, {"body": [{"k": "step", "script": [{"do": "ok", "val": "keeps-inner-running", "gate": "keep"}]}]}]
+                inner = {"k": "par", "branches": ibrs, "cfg": {"preset": "all_completed"}} if ikind == "par" else \
+                    {"k": "map", "items": [0, 1], "per_item": ibrs, "body": [], "cfg": None}
+                obrs = [{"body": [inner]}, {"body": [{"k": "gate", "name": "fast"}, {"k": "step", "val": "fast"}]}]
+                node = {"k": "par", "branches": obrs, "cfg": {"min_ok": 1}} if okind == "par" else {"k": "map", "items": [0, 1], "per_item": obrs, "body": [], "cfg": {"min_ok": 1}}
+                parked_path = "0/b0/0/b0/0"
+                yield {"label": "resubmitted-under-completed-outer-block|%s|%s|%s" % (okind, ikind, parked),
+                       "prog": {"body": [node, {"k": "gate", "name": "main-hold"}, {"k": "step", "val": "end"}]}, "prog_seed": 19700 + j, "pattern": {"p": "plain"},
+                       "max_inv": 12, "world": {"complete": {}, "timers": "all"},
+                       # the fast outer branch finishes only once the inner branch is parked; the handler and the keeper stay until the
+                       # parked branch has been re-submitted and has ended one way or the other
+                       "holds": [{"match": {"kind": "gate", "name": "fast"}, "until": {"event": {"kind": "susp", "path": parked_path}}},
+                                 {"match": {"kind": "gate", "name": "keep"}, "until": {"event": {"kind": "fn_exit", "fnkind": "branch", "path": "0/b0/0/b0", "count": 2}}},
+                                 {"match": {"kind": "gate", "name": "main-hold"}, "until": {"event": {"kind": "fn_exit", "fnkind": "branch", "path": "0/b0/0/b1"}}}],
+                       "opts": {"idle_s": 0.6, "hang_s": 4.0}}
+                j += 1
+
+
 def explicit_all(tier, seed):
     yield from explicit(tier, seed)
+    yield from nested_retry_cases(tier, seed)
     # oversized (summarised) blocks that completed early with branches still running, then replayed in later invocations: whatever the
     # rebuild does with a branch that is only STARTED in the history, nothing may be recorded under the long-completed block
     from checks.c16 import explicit as c16_cases
